@@ -3,7 +3,6 @@ package main
 // C16 — rebase.Parse / rebase.Read / rebase.Export on the real code.
 
 import (
-	"bytes"
 	"encoding/hex"
 	"encoding/json"
 	"fmt"
@@ -45,33 +44,6 @@ func c16Entries(m map[string]rebase.Enzyme) []string {
 	return out
 }
 
-// c16Tokens is the token stream of a JSON text as encoding/json's own decoder reads it
-// (delimiters, "s:<string>", "null", and "other:<token>" for anything else), object keys in
-// the order written.
-func c16Tokens(data []byte) ([]string, error) {
-	dec := json.NewDecoder(bytes.NewReader(data))
-	var out []string
-	for {
-		t, err := dec.Token()
-		if err != nil {
-			if err.Error() == "EOF" {
-				return out, nil
-			}
-			return out, err
-		}
-		switch v := t.(type) {
-		case json.Delim:
-			out = append(out, string(rune(v)))
-		case string:
-			out = append(out, "s:"+v)
-		case nil:
-			out = append(out, "null")
-		default:
-			out = append(out, fmt.Sprintf("other:%v", v))
-		}
-	}
-}
-
 // c16Report: Parse (with panic recovery), Read of the same bytes from a file, Export, Unmarshal back.
 func c16Report(text []byte) (out []string) {
 	defer func() {
@@ -103,12 +75,8 @@ func c16Report(text []byte) (out []string) {
 		jsonFlag = "json-same"
 	}
 	out = append(out, jsonFlag)
-	toks, err := c16Tokens(js)
-	if err != nil {
-		toks = append(toks, "token-error")
-	}
-	out = append(out, strconv.Itoa(len(toks)))
-	return append(out, toks...)
+	// the bytes of the export (held across the second Export above); compared byte for byte with the model's printer
+	return append(out, string(js))
 }
 
 func init() {
